@@ -72,6 +72,8 @@ impl Error {
 #[verifier::external_body]
 pub fn vx_string_contains(s: &String, pat: &str) -> bool { unimplemented!() }
 pub mod value {
+    /// `crate::value::Map` as a map literal is collected into it
+    pub type Map = crate::VxMapLit;
     pub mod number {
         use crate::*;
         macro_rules! numfn {
@@ -149,3 +151,34 @@ impl From<Vec<Value>> for Value {
 /// `v.reverse()` (std)
 #[verifier::external_body]
 pub fn vx_reverse_values(v: &mut Vec<Value>) ensures final(v)@ == old(v)@.reverse() { unimplemented!() }
+// ---- map literals (BuildMap): keys by Value::as_key, the map collected from the pairs IN ORDER
+#[verifier::external_body]
+pub struct Key { _p: () }
+#[verifier::external_body]
+pub struct VxMapLit { _p: () }
+impl VxMapLit { pub uninterp spec fn pairs(&self) -> Seq<(Key, Value)>; }
+/// the map value collected from these pairs in this order (std: `FromIterator` for a map inserts in order, so a
+/// LATER pair replaces an earlier one with an equal key)
+pub uninterp spec fn map_value(pairs: Seq<(Key, Value)>) -> Value;
+pub uninterp spec fn key_spec(v: Value) -> Result<Key, ()>;
+impl Value {
+    #[verifier::external_body]
+    pub fn as_key(&self) -> (r: TeraResult<Key>) ensures r is Ok == key_spec(*self) is Ok, r is Ok ==> r->Ok_0 == key_spec(*self)->Ok_0 { unimplemented!() }
+    #[verifier::external_body]
+    pub fn empty_map() -> (r: Value) ensures r == map_value(Seq::empty()) { unimplemented!() }
+}
+/// `pairs.into_iter().collect::<Map>()`
+#[verifier::external_body]
+pub fn vx_collect_map(v: Vec<(Key, Value)>) -> (r: VxMapLit) ensures r.pairs() == v@ { unimplemented!() }
+/// `Value::from(map)`
+#[verifier::external_body]
+pub fn vx_value_from_map(m: VxMapLit) -> (r: Value) ensures r == map_value(m.pairs()) { unimplemented!() }
+#[verifier::external_body]
+pub fn vx_reverse_pairs(v: &mut Vec<(Key, Value)>) ensures final(v)@ == old(v)@.reverse() { unimplemented!() }
+/// pair i of the literal has something that can be a key in key position
+pub open spec fn key_ok(st: Seq<(Value, SpanRange)>, base: int, i: int) -> bool { key_spec(st[base + 2 * i].0) is Ok }
+/// the k (key, value) pairs of a map literal as they lie on the stack, in SOURCE order: pair i is
+/// (st[base + 2i], st[base + 2i + 1])
+pub open spec fn lit_pairs(st: Seq<(Value, SpanRange)>, base: int, k: int) -> Seq<(Key, Value)> {
+    Seq::new(k as nat, |i: int| (key_spec(st[base + 2 * i].0)->Ok_0, st[base + 2 * i + 1].0))
+}
